@@ -272,6 +272,8 @@ def mc_configs(sims, thorough=False):
         dict(gc=_g(4, PATH4), tau=2.0, gamma=1.0, I0=[1], R0=[3]),
         dict(gc=_g(4, STAR4, nw=[2.0, 0.5, 1.0, 3.0]), tau=1.0, gamma=0.8, I0=[0, 3], R0=[], nw='rw'),
         dict(gc=_g(3, TRI), tau=1.0, gamma=0.0, I0=[0], R0=[], tmax=1.5),
+        dict(gc=_g(4, STARCHORD, ew=[1.0, 2.0, 0.5, 3.0], nw=[2.0, 1.0, 0.5, 1.0]), tau=1.2, gamma=1.0, I0=[1], R0=[3], ew='w', nw='rw'),
+        dict(gc=_g(4, PAW, ew=[0.5, 2.0, 1.0, 3.0]), tau=1.5, gamma=1.0, I0=[0, 3], R0=[], ew='w', tmax=1.5),
     ]
     if thorough:
         base += [
